@@ -163,6 +163,48 @@ Example C03_session_example :
   = [[0;0; 0;0; 0;6; 1; 3; 0;16; 0;2]; [0;2; 0;0; 0;6; 9; 1; 0;7; 0;3]].
 Proof. vm_compute. reflexivity. Qed.
 
+(* ---- the COMPLETE byte stream of a connection, with a peer and a transport (Model/ClientSession.v
+   session_stream: execute_request = format, ONE write bounded by the request's timeout BEFORE the
+   receive loop, then the loop, which never writes). Whatever the peer sends while a request is in
+   flight - stale or foreign transaction ids, duplicates, partial replies, nothing - the stream is
+   the Spec's ref_session_stream: one serialisation per accepted call, in order, nothing else. A
+   frame the transport did not take within the timeout appears as a PREFIX of its encoding and is
+   the LAST thing on the connection (Io(TimedOut) ends the session); nothing follows a lost
+   connection. ---- *)
+Theorem C03_session_stream : forall f calls k, Forall (fun x => call_wf (snd (fst (fst x)))) calls ->
+  session_stream f (k mod 65536) calls = ref_session_stream (is_tcp f) k (strip_fates calls).
+Proof. exact session_stream_ref. Qed.
+Print Assumptions C03_session_stream.
+
+(* a frame with another transaction id arriving while a request waits changes nothing on the wire *)
+Theorem C03_session_stream_peer_independent : forall f v pre p uid c fate evs1 evs2 post,
+  session_stream f v (pre ++ (p, uid, c, fate, evs1 ++ RxSkip :: evs2) :: post) =
+  session_stream f v (pre ++ (p, uid, c, fate, evs1 ++ evs2) :: post).
+Proof. exact session_stream_peer_independent. Qed.
+Print Assumptions C03_session_stream_peer_independent.
+
+(* no stall, no lost connection: the stream is the concatenation of the frames of session_wire *)
+Theorem C03_session_stream_concat : forall f calls v,
+  Forall (fun x => snd (fst x) = TxAll /\ rx_loses_connection (snd x) = false) calls ->
+  session_stream f v calls = concat (session_wire f v (map (fun x => fst (fst x)) calls)).
+Proof. exact session_stream_concat. Qed.
+Print Assumptions C03_session_stream_concat.
+
+(* a partial frame is only ever followed by the connection being closed, never by another frame *)
+Theorem C03_partial_frame_is_last : forall (tcp : bool) (uid : N) (c : call) (j : nat) pre k post,
+  within_limits_b c = true ->
+  (forall t, (j < length (if tcp then ref_encode_tcp t uid c else ref_encode_rtu uid c))%nat) ->
+  ref_session_stream tcp k (pre ++ (uid, c, FateCut j) :: post) = ref_session_stream tcp k (pre ++ [(uid, c, FateCut j)]).
+Proof. exact ref_stream_cut_is_last. Qed.
+Print Assumptions C03_partial_frame_is_last.
+
+Example C03_stream_example :
+  session_stream Tcp 0 [(ViaChannel, 1, CReadHoldingRegisters 16 2, TxAll, [RxSkip; RxSkip; RxReply]);
+                        (ViaChannel, 1, CReadHoldingRegisters 16 1, TxCut 5, []);
+                        (ViaChannel, 1, CReadCoils 0 1, TxAll, [RxReply])]
+  = [0;0; 0;0; 0;6; 1; 3; 0;16; 0;2] ++ [0;1; 0;0; 0].
+Proof. vm_compute. reflexivity. Qed.
+
 (* The Spec's coil packing, stated bitwise: coil k is bit (k mod 8) of byte (k / 8) - LSB first -,
    every padding bit is 0 (k beyond the vector reads `false`), and there are ceil(n/8) bytes. *)
 Theorem C03_pack_lsb_first : forall bits k,
